@@ -1,7 +1,7 @@
 from typing import Any, Dict, Literal, Optional
 
 from pydantic import Extra
-from pydantic.fields import ModelField
+from pydantic.fields import SHAPE_SINGLETON, ModelField
 
 from ..util import is_public_name
 from ..util.models import field_parent_type
@@ -80,8 +80,11 @@ def add_const_fields(consts: Dict[str, Any], *, override: bool = False):
                 # we allow to silently override of enum/literal types with suitable values
                 # to support a schema design pattern of marked subclasses
                 # but check that it is actually used correctly.
-                enum_specialization = is_enum(field_def.type_)
-                literal_specialization = is_literal(field_def.type_)
+                # (type_ is the innermost type - a list or set of such values is not
+                # specialized by a single one of them)
+                singleton = field_def.shape == SHAPE_SINGLETON
+                enum_specialization = singleton and is_enum(field_def.type_)
+                literal_specialization = singleton and is_literal(field_def.type_)
 
                 valid_specialization = False
                 if enum_specialization:
